@@ -361,14 +361,17 @@ namespace cds { namespace gc {
             void extend()
             {
                 assert( list_head_ != nullptr );
-                assert( current_block_ == list_tail_ );
-                assert( current_cell_ == current_block_->last());
 
                 retired_block* block = retired_allocator::instance().alloc();
                 assert( block->next_ == nullptr );
 
-                current_block_ = list_tail_ = list_tail_->next_ = block;
-                current_cell_ = block->first();
+                list_tail_ = list_tail_->next_ = block;
+                // scan() compacts the survivors to the head of the array before calling extend():
+                // the cursor moves to the new block only if no free cell is left behind it
+                if ( current_cell_ == current_block_->last()) {
+                    current_block_ = block;
+                    current_cell_ = block->first();
+                }
                 ++block_count_;
                 CDS_HPSTAT( ++extend_call_count_ );
             }
